@@ -322,6 +322,27 @@ pub fn scenarios(tier: Tier) -> Vec<NetScenario> {
         c.fates = vec![NFate::Ok, NFate::Drop, NFate::Dup, NFate::Delay1];
         v.push(c);
     }
+    // IPv6 everywhere: three clients (two share an IP, two share a port), and a fail-over between two IPv6 addresses
+    {
+        let mut c = SimCfg::base("handshake 3 clients, IPv6 addresses", vec![ClientCfg::new(1), ClientCfg::new(2), ClientCfg::new(3)]);
+        c.ipv6 = true;
+        c.server_addrs = vec![crate::nc::server_addr6(0)];
+        c.horizon = 4;
+        c.server_payload_ticks = vec![5, 6];
+        v.push(c);
+        let mut cl = ClientCfg::new(1);
+        cl.timeout = 2;
+        cl.addr_list = vec![1, 0];
+        let mut c = SimCfg::base("fail-over silent first address timeout=2s, IPv6 addresses", vec![cl]);
+        c.ipv6 = true;
+        c.server_addrs = vec![crate::nc::server_addr6(0), crate::nc::server_addr6(1)];
+        c.alive = vec![true, false];
+        c.fault_from = 9;
+        c.horizon = 13;
+        c.tail = 16;
+        c.fates = vec![NFate::Ok, NFate::Drop, NFate::Delay1];
+        v.push(c);
+    }
     // scale class: a token with the maximum of 32 addresses, only the last one answers (time-out 1 s per address)
     {
         let mut cl = ClientCfg::new(1);
